@@ -13,8 +13,8 @@ ALL = [f"C{i:02d}" for i in range(1, 21)]
 RELATED = {
     "C01": ["C01", "C05", "C09"], "C02": ["C02", "C03"], "C03": ["C03", "C01", "C02"], "C04": ["C04", "C18"], "C05": ["C05", "C01", "C09", "C16"],
     "C06": ["C06"], "C07": ["C07"], "C08": ["C08", "C07"], "C09": ["C09", "C04", "C20"], "C10": ["C10"],
-    "C11": ["C11", "C18"], "C12": ["C12", "C18"], "C13": ["C13", "C15"], "C14": ["C14", "C18"], "C15": ["C15", "C13"],
-    "C16": ["C16"], "C17": ["C17"], "C18": ["C18", "C04"], "C19": ["C19"], "C20": ["C20", "C09"],
+    "C11": ["C11", "C18", "C17"], "C12": ["C12", "C18"], "C13": ["C13", "C15"], "C14": ["C14", "C18"], "C15": ["C15", "C13"],
+    "C16": ["C16"], "C17": ["C17"], "C18": ["C18", "C04", "C12"], "C19": ["C19"], "C20": ["C20", "C09"],
 }
 
 
@@ -87,7 +87,8 @@ def _main(args):
                 prop = next((f["property"] for f in known["fixed"] if f["commit"] == m.group(1)), None)
         props = ALL if (all_checks or prop is None) else RELATED.get(prop, [prop])
         work.append((name, os.path.abspath(patch), props, t))
-    matrix_path = os.path.join(VERIF, "seeded", "MATRIX.json")
+    # VF_MATRIX_FILE: write somewhere else (and leave the meta.json files alone) - used for runs at other seeds
+    matrix_path = os.environ.get("VF_MATRIX_FILE") or os.path.join(VERIF, "seeded", "MATRIX.json")
     matrix = json.load(open(matrix_path)) if os.path.exists(matrix_path) else {}
     with concurrent.futures.ThreadPoolExecutor(4) as pool:
         futs = {pool.submit(run_one, patch, props, jobs): (name, t) for name, patch, props, t in work}
@@ -97,7 +98,7 @@ def _main(args):
             matrix.setdefault(name, {}).update(res)
             detected = sorted(p for p, v in res.items() if isinstance(v, dict) and v.get("rc") == 1)
             print(name, "detected by", detected, {p: v for p, v in res.items() if isinstance(v, dict) and v.get("rc") not in (0, 1)} or "", flush=True)
-            meta = os.path.join(t, "meta.json") if os.path.isdir(t) else None
+            meta = os.path.join(t, "meta.json") if os.path.isdir(t) and not os.environ.get("VF_MATRIX_FILE") else None
             if meta and os.path.exists(meta):
                 m = json.load(open(meta))
                 prev = set(m.get("detected_by") or [])
